@@ -73,6 +73,9 @@ func (d *PathDecoder) SignatureAtPos(filename string, pos hcl.Pos) (*lang.Functi
 			}
 			lastArgEndPos = v.Range().End
 			lastArgIdx = i
+			// the cursor is behind this argument: unless a comma follows
+			// it is still the active one (e.g. blanks before the closing parenthesis)
+			activePar = i
 		}
 
 		if !foundActivePar {
